@@ -189,7 +189,7 @@ C16others(pre, c, post) ==
 (* C16.idempotent -- "finishing is safe to repeat": a repeated Finish(c)     *)
 (* raises nothing and changes nothing.                                       *)
 C16idempotent(pre, res, post) ==
-  res = "ok" /\ Host(post) = Host(pre) /\ post.net = pre.net
+  res = "ok" /\ Host(post) = Host(pre)
 
 FailIf(name, holds) == IF holds THEN {} ELSE {name}
 FlagIf(name, cond) == IF cond THEN {name} ELSE {}
